@@ -152,13 +152,17 @@ class SplitDiffCombine(Contract):
             for bits in range(2 ** L):
                 for order in (1, 2):
                     out.append({'L': L, 'mask': format(bits, f'0{L}b'), 'order': order})
+        # integer-typed lines (Field(..., dtype=int)): the difference quotients are real numbers, not truncated ones
+        for mask in ('111', '1111', '1011', '11011', '110111'):
+            for order in (1, 2):
+                out.append({'L': len(mask), 'mask': mask, 'order': order, 'adtype': 'int'})
         return out
 
     def pre_state(s, E, cfg):
         import numpy as np
         L, mask = cfg['L'], [c == '1' for c in cfg['mask']]
         dx = inp(E, 'dx', 'float')
-        arr = E.sym_array('a', [L], 'float')
+        arr = E.sym_array('a', [L], cfg.get('adtype', 'float'))
         valid = E.data_array(np.array(mask, dtype=bool), 'bool', 'valid')
         st = State(None, [arr, valid, cfg['order'], dx], {})
         st.assume = [R(dx) > 0]
@@ -298,6 +302,9 @@ class FieldDiff(Contract):
                             if tier == 'quick' and (order == 2) and (per != r2v):
                                 continue
                             out.append({'ndim': d, 'nvdim': 3 if d == 3 else (1 if d == 1 else 2), 'axis': ax, 'order': order, 'periodic': per, 'restrict2valid': r2v})
+        # integer-typed value arrays: the derivative is a floating field holding the untruncated quotients
+        out += [{'ndim': 1, 'nvdim': 1, 'axis': 0, 'order': 1, 'periodic': False, 'restrict2valid': True, 'adtype': 'int'},
+                {'ndim': 2, 'nvdim': 2, 'axis': 1, 'order': 2, 'periodic': True, 'restrict2valid': True, 'adtype': 'int'}]
         out += [{'ndim': 2, 'nvdim': 2, 'axis': 0, 'order': 3, 'periodic': False, 'restrict2valid': True},
                 {'ndim': 2, 'nvdim': 2, 'axis': 'nodim', 'order': 1, 'periodic': False, 'restrict2valid': True}]
         return out
@@ -312,7 +319,8 @@ class FieldDiff(Contract):
             bc = dims[(ax + 1) % d] if isinstance(ax, int) else ''    # periodic in ANOTHER direction only: must not matter
         m, assume = sym_mesh(E, d, prefix='fm', tf=1e-12, cellcond=True, bc=bc)
         vd = ['p', 'q', 'r'][:nv] if nv > 1 else None
-        f, assume = sym_field(E, d, nv, mesh=m, assume=assume, unit='T', vdims=vd, mapping=(dict(zip(vd, reversed(dims))) if (vd and nv == d) else {}))
+        f, assume = sym_field(E, d, nv, mesh=m, assume=assume, unit='T', vdims=vd, mapping=(dict(zip(vd, reversed(dims))) if (vd and nv == d) else {}),
+                              adtype=cfg.get('adtype', 'float'))
         direction = dims[ax] if isinstance(ax, int) else ax
         st = State(f, [direction], {'order': cfg['order'], 'restrict2valid': cfg['restrict2valid']})
         st.assume, st.cfg = assume, cfg
